@@ -61,8 +61,12 @@ def solve_op(op, relax=False, time_limit=60., extra_l=None, extra_u=None):
     integ = np.zeros(n)
     if not relax:
         integ[bool_vars(op)] = 1
-    l = np.array(op.l, dtype=float) if extra_l is None else extra_l
-    u = np.array(op.u, dtype=float) if extra_u is None else extra_u
+    l = np.array(op.l, dtype=float) if extra_l is None else np.array(extra_l, dtype=float)
+    u = np.array(op.u, dtype=float) if extra_u is None else np.array(extra_u, dtype=float)
+    if not relax:
+        bi = bool_vars(op)          # boolean means {0,1} intersected with [l,u]
+        l[bi] = np.ceil(np.maximum(l[bi], 0.) - 1e-9)
+        u[bi] = np.floor(np.minimum(u[bi], 1.) + 1e-9)
     if np.any(l > u + 1e-12):
         return {'status': 'infeasible', 'value': None, 'x': None, 'raw': -1}
     return highs(op.c, l, u, A, lo, hi, integ if integ.any() else None, time_limit)
